@@ -76,7 +76,7 @@ def build():
 
 
 def kv_replay(bd, *args, timeout=3000):
-    p = vp.run([os.path.join(bd, "kv_replay")] + [str(a) for a in args], timeout=timeout)
+    p = vp.run_subject([os.path.join(bd, "kv_replay")] + [str(a) for a in args], timeout=timeout)
     return p.stdout or ""
 
 
